@@ -95,7 +95,7 @@ def matrix(tier="quick"):
 
     sids = sorted(d for d in os.listdir(SEEDED) if os.path.isdir(os.path.join(SEEDED, d)) and not d.startswith("_"))
     res = {}
-    with ThreadPoolExecutor(max_workers=3) as ex:
+    with ThreadPoolExecutor(max_workers=int(os.environ.get("VERIF_MATRIX_PAR", "1"))) as ex:
         def pid_of(sid):
             try:
                 return json.load(open(os.path.join(SEEDED, sid, "meta.json"))).get("run_with_check") or sid.split("-")[0]
